@@ -182,8 +182,13 @@ def check(ctx: Ctx) -> None:
                     for k in n.keywords:
                         if k.arg == 'order' and isinstance(k.value, ast.Constant):
                             o = k.value.value
-                    if n.func.attr in ('flatten', 'ravel') and n.args and isinstance(n.args[0], ast.Constant):
+                    np_form = isinstance(n.func.value, ast.Name) and n.func.value.id in ('np', 'numpy')
+                    if n.func.attr in ('flatten', 'ravel') and not np_form and n.args and isinstance(n.args[0], ast.Constant):
                         o = n.args[0].value
+                    # function forms with the order given positionally: np.reshape(a, shape, order), np.ravel(a, order)
+                    pos = 2 if n.func.attr == 'reshape' else 1
+                    if np_form and len(n.args) > pos and isinstance(n.args[pos], ast.Constant) and isinstance(n.args[pos].value, str):
+                        o = n.args[pos].value
                     out.append(o)
             return out
         eo, do = orders(enc), orders(dec)
